@@ -151,3 +151,336 @@ pub fn c01(cfg: &Value) {
         }
     }
 }
+
+fn tags_in(log: &[Ev]) -> Vec<Tag> {
+    log.iter()
+        .filter_map(|e| match e {
+            Ev::Next(Seen::Tagged(t), _) => Some(*t),
+            _ => None,
+        })
+        .collect()
+}
+
+/// Oracle for "a completed flush means everything appended before it is written and flushed":
+/// `before` = entries whose append had returned when the flush was requested, `snap` = stream
+/// log at the instant completion was signalled, `displaced_ok(tag)` = may this entry have been
+/// displaced by overflow.
+fn check_flush_snapshot(who: &str, before: &[Tag], snap: &[Ev], displaced_ok: impl Fn(Tag) -> bool) {
+    let mut last_pos = None;
+    for t in before {
+        match snap.iter().position(|e| matches!(e, Ev::Next(Seen::Tagged(x), _) if x == t)) {
+            Some(p) => last_pos = Some(last_pos.map_or(p, |l: usize| l.max(p))),
+            None => {
+                if !displaced_ok(*t) {
+                    mc::violation(
+                        "flush-completed-before-write",
+                        format!("{who}: flush completed but entry {t} (appended before the request) had not reached the stream: log at completion = {}", log_string(snap)),
+                    );
+                }
+            }
+        }
+    }
+    if let Some(p) = last_pos {
+        if !snap[p + 1..].iter().any(|e| *e == Ev::Flush) {
+            mc::violation(
+                "flush-completed-before-stream-flush",
+                format!("{who}: flush completed but the stream was not flushed after the last entry appended before the request: log at completion = {}", log_string(snap)),
+            );
+        }
+    }
+}
+
+/// C04: producers and flushers on separate threads (or one thread doing both).
+///   cfg: cap, producers: [n entries each], flushers: k (each requests one flush after `after`
+///   of its own appends if it is also a producer), mode: "separate" | "self" | "after-shutdown"
+pub fn c04(cfg: &Value) {
+    let cap = cfg["cap"].as_u64().unwrap_or(8) as usize;
+    let n = cfg["n"].as_u64().unwrap_or(2) as usize;
+    let mode = cfg["mode"].as_str().unwrap_or("separate").to_string();
+    let boxed = cfg["boxed"].as_bool().unwrap_or(false);
+    let flushers = cfg["flushers"].as_u64().unwrap_or(1) as usize;
+    if let Some(k) = cfg["jump_k"].as_u64() {
+        vtime::jump_at_read(k, Duration::from_secs(2));
+    }
+    let (stream, log) = RecStream::new(BTreeMap::new());
+    let (q, handle) = build(boxed, cap, stream);
+    let returned = Returned::default();
+    let total = n;
+    // with a single producer the append order is the tag order: an entry may be displaced iff
+    // at least `cap` newer entries exist
+    let displaced_ok = move |t: Tag| (total - 1 - t.seq as usize) >= cap;
+    let mut threads = Vec::new();
+    match mode.as_str() {
+        "self" => {
+            // one thread: append n entries, request a flush after `after` of them, wait for it
+            let after = cfg["after"].as_u64().unwrap_or(n as u64) as usize;
+            let (q, log, returned) = (q.clone(), log.clone(), returned.clone());
+            threads.push(thread::spawn(move || {
+                let mut pending = None;
+                for si in 0..n {
+                    if si == after {
+                        pending = Some((returned.get(), q.flush_async()));
+                    }
+                    let t = Tag { p: 0, seq: si as u8 };
+                    q.append(t);
+                    returned.push(t);
+                }
+                let (before, fut) = pending.unwrap_or_else(|| (returned.get(), q.flush_async()));
+                let ((), snap) = wait_with_snapshot(fut, &log);
+                mc::outcome(format!("before={} snap={}", before.len(), log_string(&snap)));
+                check_flush_snapshot("self", &before, &snap, displaced_ok);
+            }));
+        }
+        "separate" => {
+            {
+                let (q, returned) = (q.clone(), returned.clone());
+                threads.push(thread::spawn(move || {
+                    for si in 0..n {
+                        let t = Tag { p: 0, seq: si as u8 };
+                        q.append(t);
+                        returned.push(t);
+                    }
+                }));
+            }
+            for f in 0..flushers {
+                let (q, log, returned) = (q.clone(), log.clone(), returned.clone());
+                threads.push(thread::spawn(move || {
+                    let before = returned.get();
+                    let fut = q.flush_async();
+                    let ((), snap) = wait_with_snapshot(fut, &log);
+                    mc::outcome(format!("f{f} before={} snap={}", before.len(), log_string(&snap)));
+                    check_flush_snapshot("separate", &before, &snap, displaced_ok);
+                }));
+            }
+        }
+        "after-shutdown" => {
+            for si in 0..n {
+                let t = Tag { p: 0, seq: si as u8 };
+                q.append(t);
+                returned.push(t);
+            }
+            drop(handle);
+            // the queue has shut down: a flush request completes immediately (nothing can block)
+            let before = returned.get();
+            let ((), snap) = wait_with_snapshot(q.flush_async(), &log);
+            mc::outcome(format!("after-shutdown snap={}", log_string(&snap)));
+            check_flush_snapshot("after-shutdown", &before, &snap, displaced_ok);
+            return;
+        }
+        other => panic!("HARNESS: unknown mode {other}"),
+    }
+    for t in threads {
+        t.join().unwrap();
+    }
+    drop(q);
+    drop(handle);
+}
+
+/// C05 drop path: a producer thread appends concurrently with main dropping the join handle.
+pub fn c05_drop(cfg: &Value) {
+    let boxed = cfg["boxed"].as_bool().unwrap_or(false);
+    let main_n = cfg["main_n"].as_u64().unwrap_or(1) as usize;
+    let prod_n = cfg["prod_n"].as_u64().unwrap_or(2) as usize;
+    let use_shut_down = cfg["shut_down"].as_bool().unwrap_or(false);
+    let flush_first = cfg["flush_first"].as_bool().unwrap_or(false);
+    let clone_drop = cfg["clone_drop"].as_bool().unwrap_or(false);
+    if let Some(k) = cfg["jump_k"].as_u64() {
+        vtime::jump_at_read(k, Duration::from_secs(cfg["jump_secs"].as_u64().unwrap_or(2)));
+    }
+    let (stream, log) = RecStream::new(BTreeMap::new());
+    let (q, handle) = build(boxed, 8, stream);
+    let returned = Returned::default();
+    let producer = {
+        let (q, returned) = (q.clone(), returned.clone());
+        thread::spawn(move || {
+            for si in 0..prod_n {
+                let t = Tag { p: 1, seq: si as u8 };
+                q.append(t);
+                returned.push(t);
+            }
+        })
+    };
+    for si in 0..main_n {
+        let t = Tag { p: 0, seq: si as u8 };
+        q.append(t);
+        returned.push(t);
+        if clone_drop && si == 0 {
+            let c = q.clone();
+            drop(c);
+        }
+    }
+    if flush_first {
+        drop(q.flush_async());
+    }
+    let before = returned.get();
+    if use_shut_down {
+        handle.shut_down();
+    } else {
+        drop(handle);
+    }
+    let at_return = log.lock().unwrap().clone();
+    // ---- oracle at the return of drop(handle)
+    let logged = tags_in(&at_return);
+    for t in &before {
+        if !logged.contains(t) {
+            mc::violation("shutdown-lost-entry", format!("drop(handle) returned but entry {t}, appended before the drop began, never reached the stream: {}", log_string(&at_return)));
+        }
+    }
+    let last_next = at_return.iter().rposition(|e| matches!(e, Ev::Next(..)));
+    let last_flush = at_return.iter().rposition(|e| *e == Ev::Flush);
+    match (last_next, last_flush) {
+        (Some(n), Some(f)) if f > n => {}
+        (None, Some(_)) => {}
+        _ => mc::violation("shutdown-without-flush", format!("drop(handle) returned but the stream was not flushed after the last entry: {}", log_string(&at_return))),
+    }
+    if at_return.last() != Some(&Ev::Dropped) {
+        mc::violation("shutdown-without-close", format!("drop(handle) returned but the stream has not been dropped (or something followed its drop): {}", log_string(&at_return)));
+    }
+    // appends after the shutdown are discarded silently
+    q.append(Tag { p: 0, seq: 90 });
+    producer.join().unwrap();
+    drop(q);
+    let end = log.lock().unwrap().clone();
+    mc::outcome(log_string(&end));
+    if end != at_return {
+        mc::violation("write-after-shutdown", format!("the stream was used after drop(handle) returned: at return {} / at end {}", log_string(&at_return), log_string(&end)));
+    }
+}
+
+/// C05 forget path: the join handle is forgotten; once the last queue handle is gone the writer
+/// must drain, flush, close the stream and exit within a bounded number of flush intervals.
+pub fn c05_forget(cfg: &Value) {
+    let boxed = cfg["boxed"].as_bool().unwrap_or(false);
+    let main_n = cfg["main_n"].as_u64().unwrap_or(1) as usize;
+    let prod_n = cfg["prod_n"].as_u64().unwrap_or(1) as usize;
+    let horizon = cfg["horizon"].as_u64().unwrap_or(3);
+    let (stream, log) = RecStream::new(BTreeMap::new());
+    let (q, handle) = build(boxed, 8, stream);
+    handle.forget();
+    let returned = Returned::default();
+    let producer = {
+        let (q, returned) = (q.clone(), returned.clone());
+        thread::spawn(move || {
+            for si in 0..prod_n {
+                let t = Tag { p: 1, seq: si as u8 };
+                q.append(t);
+                returned.push(t);
+            }
+        })
+    };
+    for si in 0..main_n {
+        let t = Tag { p: 0, seq: si as u8 };
+        q.append(t);
+        returned.push(t);
+    }
+    producer.join().unwrap();
+    drop(q); // last handle
+    let closed = |log: &Log| log.lock().unwrap().last() == Some(&Ev::Dropped);
+    let mut rounds = 0;
+    while !closed(&log) && rounds < horizon {
+        // let one flush interval (1 s) pass while the writer sleeps
+        let l = log.clone();
+        vtime::advance_when_idle(Duration::from_millis(1100), move || l.lock().unwrap().last() == Some(&Ev::Dropped));
+        rounds += 1;
+        // let the writer act on the expired timer: wait until it sleeps again (having seen the
+        // new time) or has closed the stream
+        let l = log.clone();
+        vtime::advance_when_idle(Duration::ZERO, move || l.lock().unwrap().last() == Some(&Ev::Dropped));
+    }
+    let end = log.lock().unwrap().clone();
+    mc::outcome(format!("rounds={rounds} {}", log_string(&end)));
+    if closed(&log) {
+        // the detached writer is about to exit: wait for it (loom tears its statics down when
+        // this closure returns); a writer that keeps running after closing is a deadlock here
+        thread::wait_all_spawned();
+    }
+    if !closed(&log) {
+        mc::violation("forgotten-queue-never-shuts-down", format!("the join handle was forgotten and the last queue handle dropped, but after {horizon} flush intervals the writer has not closed the stream: {}", log_string(&end)));
+    }
+    let logged = tags_in(&end);
+    for t in returned.get() {
+        if !logged.contains(&t) {
+            mc::violation("forget-lost-entry", format!("entry {t} never reached the stream before the forgotten queue closed: {}", log_string(&end)));
+        }
+    }
+    let last_next = end.iter().rposition(|e| matches!(e, Ev::Next(..)));
+    let last_flush = end.iter().rposition(|e| *e == Ev::Flush);
+    if let (Some(n), Some(f)) = (last_next, last_flush) {
+        if f < n {
+            mc::violation("forget-without-flush", format!("closed without a flush after the last entry: {}", log_string(&end)));
+        }
+    }
+}
+
+/// C09: bounded queue, gated (possibly completely stalled) writer.
+pub fn c09(cfg: &Value) {
+    let cap = cfg["cap"].as_u64().unwrap_or(1) as usize;
+    let producers = cfg["p"].as_u64().unwrap_or(1) as usize;
+    let n = cfg["n"].as_u64().unwrap_or(2) as usize;
+    let early = cfg["early_permits"].as_u64().unwrap_or(0) as usize;
+    let (mut stream, log) = RecStream::new(BTreeMap::new());
+    let gate = Gate::new(early);
+    stream.gate = Some(gate.clone());
+    let (rec, counts) = CountingRecorder::new();
+    let (q, handle) = BackgroundQueueBuilder::new()
+        .capacity(cap)
+        .metrics_recorder_local::<dyn metrics_024::Recorder, _>(rec)
+        .build::<TaggedEntry>(stream);
+    let threads: Vec<_> = (0..producers)
+        .map(|pi| {
+            let q = q.clone();
+            thread::spawn(move || {
+                for si in 0..n {
+                    q.append(TaggedEntry(Tag { p: pi as u8, seq: si as u8 }));
+                }
+            })
+        })
+        .collect();
+    // non-blocking: every append returns although the writer has at most `early` permits - a
+    // blocking append would be reported by loom as a deadlock right here
+    for t in threads {
+        t.join().unwrap();
+    }
+    gate.grant(producers * n + 2);
+    drop(q);
+    drop(handle);
+    let end = log.lock().unwrap().clone();
+    let logged = tags_in(&end);
+    mc::outcome(log_string(&end));
+    let total = producers * n;
+    // order + exactly-once among the survivors
+    let mut last: BTreeMap<u8, i32> = BTreeMap::new();
+    for t in &logged {
+        let l = last.entry(t.p).or_insert(-1);
+        if (t.seq as i32) <= *l {
+            mc::violation("overflow-order", format!("entries of producer {} reached the stream out of order or twice: {}", t.p, log_string(&end)));
+        }
+        *l = t.seq as i32;
+    }
+    // oldest-first: an entry may only be lost if at least `cap` newer entries were appended
+    for pi in 0..producers {
+        for si in 0..n {
+            let t = Tag { p: pi as u8, seq: si as u8 };
+            if !logged.contains(&t) {
+                // entries certainly older than t: its own producer's earlier ones
+                let possibly_newer = total - 1 - si;
+                if possibly_newer < cap {
+                    mc::violation("lost-without-enough-newer-entries", format!("entry {t} was lost although fewer than capacity={cap} newer entries can exist: {}", log_string(&end)));
+                }
+            }
+        }
+    }
+    if producers == 1 {
+        // single producer: with an untouched queue of capacity c the last c entries always survive
+        for si in n.saturating_sub(cap)..n {
+            let t = Tag { p: 0, seq: si as u8 };
+            if !logged.contains(&t) {
+                mc::violation("newest-entry-lost", format!("entry {t} is among the newest capacity={cap} entries but was lost: {}", log_string(&end)));
+            }
+        }
+    }
+    let overflows = counts.lock().unwrap().get("metrique_queue_overflows").copied().unwrap_or(0);
+    if overflows as usize != total - logged.len() {
+        mc::violation("overflow-counter", format!("metrique_queue_overflows = {overflows} but {} of {total} entries were discarded: {}", total - logged.len(), log_string(&end)));
+    }
+}
